@@ -343,6 +343,11 @@ def writer_outputs():
   return out
 
 
+def _optimize_flag(_x):
+  import sys
+  return sys.flags.optimize
+
+
 def _job(args):
   fmt, name, data, faults, seed, cfg, rid = args
   rng = random.Random(seed)
@@ -434,8 +439,28 @@ def run(ctx):
       rid += 1
       jobs.append((fmt, name, data, [], seedbase + rid, None, rid))
   ctx.count("inputs", len(jobs))
+  # one job in five runs in interpreters started with assertions disabled (python -O / PYTHONOPTIMIZE=1, as many services
+  # are deployed): whether a malformed file is refused properly does not depend on that
+  import multiprocessing
+  jobs_o = [j for j in jobs if j[6] % 5 == 3]
+  jobs_d = [j for j in jobs if j[6] % 5 != 3]
   with Pool(12, maxtasksperchild=200) as pool:
-    results = pool.map(_job, jobs, chunksize=16)
+    results = pool.map(_job, jobs_d, chunksize=16)
+  old_opt = os.environ.get("PYTHONOPTIMIZE")
+  os.environ["PYTHONOPTIMIZE"] = "1"
+  try:
+    with multiprocessing.get_context("spawn").Pool(8, maxtasksperchild=400) as pool:
+      flags = pool.map(_optimize_flag, range(8))
+      results += pool.map(_job, jobs_o, chunksize=16)
+  finally:
+    if old_opt is None:
+      del os.environ["PYTHONOPTIMIZE"]
+    else:
+      os.environ["PYTHONOPTIMIZE"] = old_opt
+  if not all(f >= 1 for f in flags):
+    raise T.MachineryError("the -O worker interpreters do not run with assertions disabled: " + str(flags))
+  ctx.count("inputs_run_with_assertions_disabled(-O)", len(jobs_o))
+  results.sort(key=lambda rm: rm[0]["id"])
   recs = [r for r, _ in results]
   meta = {r["id"]: m for r, m in results}
   jobmap = {j[6]: j for j in jobs}
